@@ -13,7 +13,7 @@ PROPERTY = "C20"
 CLAUSES = ["C20.same", "C20.notearly", "C20.strict", "C20.clock"]
 RULE = ("every kernel program of <= D instructions x factor {0.5,1,2} x initial_time {0,5} x strict {T,F} x every wall-clock "
         "behaviour with <= B deviations: compute time consumed before a step in {0, f/2, f, f+2^-10, 2f}, each sleep(d) "
-        "returning after {d, d/2, d+f/4}, sync() before any of the first steps and after simulated time has advanced; non-trivial = at least one clock deviation or a strict-mode "
+        "returning after {d, d/2, d+f/4, d+2f}, sync() before any of the first steps and after simulated time has advanced; non-trivial = at least one clock deviation or a strict-mode "
         "lag within 2^-10 of the limit; distinct = distinct (program, clock behaviour, log)")
 ASSUMPTIONS = [
     "onl.sim.rt.monotonic/sleep and time.monotonic/time.sleep are replaced by a virtual clock owned by the harness; a run in "
@@ -59,8 +59,8 @@ def execute(ch, cfg):
 
     def sleep(d):
         clock["calls"] += 1
-        opts = [d, d / 2, d + f / 4]
-        c = ch.choose(3, lambda c: "sleep(%r) returns after %r" % (d, opts[c]))
+        opts = [d, d / 2, d + f / 4, d + 2 * f]
+        c = ch.choose(4, lambda c: "sleep(%r) returns after %r" % (d, opts[c]))
         clock["wall"] += opts[c]
     saved = (rt.monotonic, rt.sleep, time.monotonic, time.sleep)
     rt.monotonic, rt.sleep, time.monotonic, time.sleep = mono, sleep, mono, sleep
